@@ -172,11 +172,12 @@ def run(res, ctx):
         for _ in range(min(500, n - done)):
             k = rng.random()
             afs = rng.sample(NONREG, rng.choice([1, 2, 2, 3, 3, 4]))
-            rows = gen.gen_history(rng, afs=afs, p_invalid=0.0, p_sfl_spec=0.0, p_split=0.06,
+            sec = rng.choice(["FOO", "FOO", "FOO", "Brk.b", "vfv.to"])      # opening positions also for names that are not upper case
+            rows = gen.gen_history(rng, sec=sec, afs=afs, p_invalid=0.0, p_sfl_spec=0.0, p_split=0.06,
                                    window_focus=(k < 0.7), terminating_only=(rng.random() < 0.7))
             inits = {}
             if rng.random() < 0.15:
-                inits["FOO"] = (core.D(rng.randint(0, 50)), core.D(rng.randint(0, 100000), 2))
+                inits[sec] = (core.D(rng.randint(0, 50)), core.D(rng.randint(0, 100000), 2))
             cases.append({"rows": rows, "inits": inits})
         done += len(cases)
         for r in corecheck.run_cases(ctx, cases, render=True):
